@@ -403,6 +403,21 @@ class CallGraph:
             return self.resolve_method(fn, f.value, f.attr)
         if isinstance(f, ast.Lambda):
             return [f._func] if hasattr(f, "_func") else []
+        if isinstance(f, ast.Call) and isinstance(f.func, ast.Name) and f.func.id == "getattr" and len(f.args) >= 2:
+            # getattr(obj, name)(..): a literal name is an ordinary method call; a computed name may be any method whose name is
+            # written as a string literal in this module (dispatch tables)
+            obj, nm = f.args[0], f.args[1]
+            if isinstance(nm, ast.Constant) and isinstance(nm.value, str):
+                return self.resolve_method(fn, obj, nm.value)
+            lits = getattr(fn.module, "_str_lits", None)
+            if lits is None:
+                lits = {x.value for x in ast.walk(fn.module.tree) if isinstance(x, ast.Constant) and isinstance(x.value, str) and x.value.isidentifier()}
+                fn.module._str_lits = lits
+            out = []
+            for s_ in sorted(lits):
+                if self.repo.methods_named(s_):
+                    out += self.resolve_method(fn, obj, s_)
+            return out
         return []
 
     def _callable_values(self, fn: Func, name: str) -> list:
